@@ -188,6 +188,8 @@ pub fn run_case(case: &Case, names: &HashMap<String, u16>) {
     let mut tick: u64 = 0;
     let mut o = String::new();
     kanata_keyberon::layout::verif::LOST_CUSTOM_RELEASES.store(0, std::sync::atomic::Ordering::Relaxed);
+    // the tick in which a custom Release event was discarded for the first time (finding custom-release-lost)
+    let first_lost = std::cell::Cell::new(-1i64);
     let res = std::panic::catch_unwind(std::panic::AssertUnwindSafe(|| {
         let mut pending: Vec<String> = vec![];
         // loop mode (token B0 / B1): like the processing loop, ask can_block_update_idle_waiting before every
@@ -288,6 +290,11 @@ pub fn run_case(case: &Case, names: &HashMap<String, u16>) {
                         }
                         k.tick_ms(1, &None).expect("tick_ms");
                         tick += 1;
+                        if first_lost.get() < 0
+                            && kanata_keyberon::layout::verif::LOST_CUSTOM_RELEASES.load(std::sync::atomic::Ordering::Relaxed) > 0
+                        {
+                            first_lost.set(tick as i64);
+                        }
                         for ev in k.kbd_out.outputs.events.drain(..) {
                             if let Some(c) = canon_event(&ev, names) {
                                 pending.push(c);
@@ -335,7 +342,13 @@ pub fn run_case(case: &Case, names: &HashMap<String, u16>) {
             writeln!(out, "PANIC tick={} {}", tick, msg.replace('\n', " ")).unwrap();
         }
     }
-    writeln!(out, "INFO lostcr={}", kanata_keyberon::layout::verif::LOST_CUSTOM_RELEASES.load(std::sync::atomic::Ordering::Relaxed)).unwrap();
+    writeln!(
+        out,
+        "INFO lostcr={} first={}",
+        kanata_keyberon::layout::verif::LOST_CUSTOM_RELEASES.load(std::sync::atomic::Ordering::Relaxed),
+        first_lost.get()
+    )
+    .unwrap();
     out.push_str("TRACE-END\n");
     let stdout = std::io::stdout();
     let mut lk = stdout.lock();
